@@ -239,7 +239,16 @@ impl Item {
             Item::Char { c, .. } => format!("'{}'", char::from_u32(*c).unwrap_or('?')),
             Item::Lig { c, orig, lb, rb, .. } => format!("lig#{c}({}{orig}{})", if *lb { "|" } else { "" }, if *rb { "|" } else { "" }),
             Item::Glue(s) => format!("glue({})", s.show()),
-            Item::Kern { w, kind } => format!("kern{}({})", if *kind == KernKind::Explicit { "!" } else { "" }, arith::print_scaled(*w)),
+            Item::Kern { w, kind } => format!(
+                "kern{}({})",
+                match kind {
+                    KernKind::Explicit => "!",
+                    KernKind::Accent => "^",
+                    KernKind::Math => "~",
+                    KernKind::Normal => "",
+                },
+                arith::print_scaled(*w)
+            ),
             Item::Penalty(p) => format!("pen({p})"),
             Item::Disc { pre, post, replace } => format!("disc({}|{}|{})", show_list(pre), show_list(post), replace),
             Item::Math(b) => format!("math{}", if *b { "off" } else { "on" }),
@@ -775,6 +784,19 @@ mod tests {
     }
     fn gl() -> Item {
         Item::Glue(Spec::new(2 * 65536, 65536, 65536))
+    }
+    /// Only glue, penalties, math items and EXPLICIT kerns are removable at a break: an accent / math /
+    /// font kern that loses its width or disappears is a conservation failure.
+    #[test]
+    fn accent_kern_is_not_a_break_item() {
+        let k = |w| Item::Kern { w, kind: KernKind::Accent };
+        let l = prepare(&[ch('a'), k(65536), gl(), ch('b')], &Spec { w: 0, st: 65536, st_o: 1, sh: 0, sh_o: 0 });
+        let tail = vec![ch('b'), Item::Penalty(10000), l[l.len() - 1].clone(), Item::Glue(Spec::ZERO)];
+        // broken at the glue, the kern stays: fine
+        assert!(unbreak(&l, &[vec![ch('a'), k(65536), Item::Glue(Spec::ZERO)], tail.clone()], &Spec::ZERO, &Spec::ZERO).is_ok());
+        // "broken at the kern": zeroed, or dropped
+        assert!(unbreak(&l, &[vec![ch('a'), k(0), Item::Glue(Spec::ZERO)], tail.clone()], &Spec::ZERO, &Spec::ZERO).is_err());
+        assert!(unbreak(&l, &[vec![ch('a'), Item::Glue(Spec::ZERO)], tail.clone()], &Spec::ZERO, &Spec::ZERO).is_err());
     }
     #[test]
     fn words_and_spelling() {
